@@ -18,7 +18,7 @@ pub struct RunOut {
 }
 
 fn alloc_class(name: &str, before: K) -> bool {
-    matches!(name, "new" | "pin" | "new_arr" | "from_iter" | "vec" | "new_any" | "new_fn" | "new_str" | "iter_probe" | "poll_probe" | "hasher_probe")
+    matches!(name, "new" | "pin" | "new_arr" | "from_iter" | "vec" | "new_any" | "new_fn" | "new_str" | "into_boxed_slice" | "from_vec" | "iter_probe" | "poll_probe" | "hasher_probe")
         || (name == "drop" && matches!(before, K::Vec(..)))
 }
 /// operations that hand the same value(s) on under another type: nothing may be dropped,
